@@ -44,9 +44,9 @@ CONFIG = {
 CONFIG["theorems"] = [
     "rel_inverse_refuted_colon", "rel_inverse_refuted_empty_segment", "rel_inverse_refuted_extension",
     "rel_inverse_refuted_query_dropped", "rel_inverse_refuted_dot_segment", "rel_is_ref_refuted",
-    "rel_parents_refuted", "rel_boundaries_refuted",
-    "rel_parents_inserted", "rel_parents_partial", "rel_same_doc",
-    "rel_inverse_fragment", "rel_inverse_query", "rel_inverse_partial",
+    "rel_is_ref_refuted_authority", "rel_parents_refuted", "rel_boundaries_refuted",
+    "rel_parents_inserted", "rel_same_doc", "rel_boundaries_partial", "rel_partial_all",
+    "rel_inverse_partial", "rel_is_ref_partial", "rel_parents_partial",
 ]
 
 
